@@ -491,13 +491,18 @@ def run_single_cell_rules(case, stats):
     M.py_initialize()
     R_.py_seed_random(case["bseed"])
     raw = {"species_order": M.get_species_list(), "recs": [], "error": None, "rows": None}
+    R_.py_verif_trace_start(3_000_000, 1)
     try:
         sim = LineageSSASimulator()
         res = sim.py_SimulateSingleCell(grid, Model=M, safe=bool(case.get("safe")))
+        flat, dropped = R_.py_verif_trace_stop()
+        raw["recs"] = tr.decode(flat)
+        raw["dropped"] = dropped
         raw["rows"] = np.array(res.py_get_result(), dtype=float)
         raw["vols"] = np.array(res.py_get_volume(), dtype=float)
         raw["times"] = np.array(res.py_get_timepoints(), dtype=float)
     except Exception as e:
+        R_.py_verif_trace_stop()
         raw["error"] = f"{type(e).__name__}: {str(e)[:200]}"
         viols.append({"class": "simulator_raised", "signature": {"mode": "lineage"}, "detail": {"error": raw["error"]}})
         return raw, viols
